@@ -182,14 +182,23 @@ Qed.
 Lemma constructors_spec_all :
   (forall val, wf bits k (of_ullong bits (2 ^ k) (ones (2 ^ k)) (ones 64) val)
                /\ abs bits k (of_ullong bits (2 ^ k) (ones (2 ^ k)) (ones 64) val) = s_of_ullong bits val)
-  /\ forall str pos n zero one,
+  /\ (forall str pos n zero one,
      match of_string bits (2 ^ k) (ones (2 ^ k)) (ones 64) str pos n zero one with
      | Ok ws => wf bits k ws /\ s_of_string bits str pos n zero one = SOk (abs bits k ws)
      | Contract => s_of_string bits str pos n zero one = SOutOfRange
                    \/ s_of_string bits str pos n zero one = SInvalid
      | _ => False
+     end)
+  /\ forall arr counted zero one,
+     match of_cstring bits (2 ^ k) (ones (2 ^ k)) (ones 64) arr counted zero one with
+     | Ok ws => wf bits k ws /\ s_of_cstring bits arr counted zero one = SOk (abs bits k ws)
+     | Contract => s_of_cstring bits arr counted zero one = SOutOfRange
+                   \/ s_of_cstring bits arr counted zero one = SInvalid
+     | _ => False
      end.
-Proof. exact (conj (of_ullong_spec bits k Hb) (of_string_spec bits k Hb)). Qed.
+Proof.
+  exact (conj (of_ullong_spec bits k Hb) (conj (of_string_spec bits k Hb) (of_cstring_spec bits k Hb))).
+Qed.
 
 End Summary.
 
